@@ -61,6 +61,9 @@ type execResult struct {
 	final      string
 	trace      []string
 	maxPending int
+	crash      string
+	// batched configurations
+	pages, pagesOK, splitPages, partialPages, swallowed int
 }
 
 func (x *execResult) deviationsBefore(i int) int {
@@ -79,6 +82,8 @@ func (x *execResult) outcome() string {
 		return "engine-error"
 	case x.viol != nil:
 		return "violation:" + x.viol.sig
+	case x.crash != "":
+		return "code-under-test-panicked"
 	case x.horizonHit:
 		return "horizon"
 	case x.quiescent:
@@ -143,8 +148,57 @@ func (w *world) observe(step int) {
 			if w.epoch > 0 {
 				since = " since the last reset"
 			}
+			beyond := ""
+			var ids []uint64
+			for id := w.acked + 2; id <= uint64(len(w.logs)); id++ {
+				if w.ackedIDs[id] {
+					ids = append(ids, id)
+				}
+			}
+			if len(ids) > 0 {
+				beyond = fmt.Sprintf("; log %d was never acknowledged although later logs %v were: a permanent gap, the pipeline resumes after %d", w.acked+1, ids, *p)
+			}
 			w.setViolation("C33:persisted-exceeds-acked", fmt.Sprintf(
-				"persisted last_log_id=%d exceeds the highest log id the exporter acknowledged%s (%d)", *p, since, w.acked))
+				"persisted last_log_id=%d exceeds the highest log id the exporter acknowledged%s (%d)%s", *p, since, w.acked, beyond))
+		}
+	}
+}
+
+// wellFormedLocked: ids strictly increasing, consecutive, and existing in the ledger.
+func (w *world) wellFormedLocked(b []uint64, who string) bool {
+	for i := 1; i < len(b); i++ {
+		if b[i] <= b[i-1] {
+			w.setViolation("C33:batch-not-increasing", fmt.Sprintf("%s %v: ids are not strictly increasing", who, b))
+			return false
+		}
+		if b[i] != b[i-1]+1 {
+			w.setViolation("C33:batch-has-gap", fmt.Sprintf("%s %v: log %d skipped inside the batch", who, b, b[i-1]+1))
+			return false
+		}
+	}
+	if b[0] == 0 || b[len(b)-1] > uint64(len(w.logs)) {
+		w.setViolation("C33:unknown-log", fmt.Sprintf("%s %v but the ledger has logs 1..%d", who, b, len(w.logs)))
+		return false
+	}
+	return true
+}
+
+// oracle (2), batched configurations, above the batching layer: the unit the pipeline
+// exports, retries and advances its position by is the page. It is judged exactly like a
+// batch of the unbatched stack: a page never starts after acked+1 (the pipeline never
+// moves past a log the exporter has not acknowledged). Called in the pipeline's export
+// goroutine, in the epoch the page belongs to.
+func (w *world) checkPageLocked(b []uint64) {
+	if len(b) == 0 || !w.wellFormedLocked(b, "the pipeline handed over page") {
+		return
+	}
+	if b[0] > w.acked+1 {
+		if w.epoch > 0 {
+			w.setViolation("C33:gap-after-reset", fmt.Sprintf(
+				"after a reset the exporter had acknowledged every log up to %d, yet the pipeline's next page is %v: logs %d..%d are never exported again", w.acked, b, w.acked+1, b[0]-1))
+		} else {
+			w.setViolation("C33:gap", fmt.Sprintf(
+				"the exporter had acknowledged every log up to %d, yet the pipeline's next page is %v: logs %d..%d were skipped", w.acked, b, w.acked+1, b[0]-1))
 		}
 	}
 }
@@ -153,6 +207,25 @@ func (w *world) observe(step int) {
 func (w *world) checkBatchLocked(g *gate) {
 	b := g.batch
 	if len(b) == 0 {
+		return
+	}
+	if w.cfg.Batching != nil {
+		// Below the batching layer the sub-batches of a page are cut and sent by the Batcher
+		// whatever happened to the previous one (the pipeline retries the page as a whole
+		// afterwards), and the logs of a page whose context was cancelled enter the batcher or
+		// not one by one. So a sub-batch may legitimately follow a FAILED one, or hold what is
+		// left of an abandoned page: "no gaps, each at least once" is judged on the
+		// acknowledged prefix (oracles 1, 2 on pages, 4), not on where a sub-batch starts.
+		// What a sub-batch itself owes the property: existing logs, in increasing id order.
+		for i := 1; i < len(b); i++ {
+			if b[i] <= b[i-1] {
+				w.setViolation("C33:batch-not-increasing", fmt.Sprintf("exporter received sub-batch %v: ids are not strictly increasing", b))
+				return
+			}
+		}
+		if b[0] == 0 || b[len(b)-1] > uint64(len(w.logs)) {
+			w.setViolation("C33:unknown-log", fmt.Sprintf("exporter received sub-batch %v but the ledger has logs 1..%d", b, len(w.logs)))
+		}
 		return
 	}
 	for i := 1; i < len(b); i++ {
@@ -216,13 +289,24 @@ func (w *world) choices() (acts []action, quiescent bool) {
 		// `select { <-stopChannel; <-time.After(0) }`: a genuine scheduling race of the real
 		// code whose two outcomes (stop before / after the first fetch was issued) are both
 		// explored from the neighbouring states.
-		starting := false
+		//
+		// Batched scenarios only: a stop request queued while the live pipeline is parked in
+		// ListLogs is served right after the pipeline has started its export goroutine, whose
+		// batcher.Send calls (`select { b.in <- op; <-ctx.Done() }`, one per log) then run
+		// concurrently with the cancellation of their context: which logs of the abandoned page
+		// still enter the batcher is a scheduling race plus a runtime coin flip per log. The
+		// pipeline is stopping (its position cannot move), so these outcomes are not explored;
+		// the same commands are issued before the fetch and once a sub-batch is at the exporter.
+		starting, fetching := false, false
 		for _, g := range w.pending {
 			if g.gen == w.cur.gen && (g.kind == kListEnabled || g.kind == kOpenLedger || g.kind == kGetPipeline) {
 				starting = true
 			}
+			if w.cfg.Batching != nil && g.gen == w.cur.gen && g.kind == kListLogs {
+				fetching = true
+			}
 		}
-		if !w.sendRisk && !starting {
+		if !w.sendRisk && !starting && !fetching {
 			acts = append(acts, action{kind: aCmd, cmd: cStop}, action{kind: aCmd, cmd: cReset}, action{kind: aCmd, cmd: cRestart})
 		}
 	}
@@ -256,6 +340,16 @@ func (w *world) stateString(acts []action, quiescent bool) string {
 	}
 	fmt.Fprintf(&sb, "#p=%s en=%v logs=%d acked=%d epoch=%d cmd=%d last=%s risk=%v q=%v mgrs=%d app=%d n=%d",
 		p, w.pipeline.Enabled, len(w.logs), w.acked, w.epoch, c, w.lastCmd, w.sendRisk, quiescent, len(w.mgrs), w.nAppends, len(acts))
+	if w.cfg.Batching != nil {
+		// acknowledged ids beyond the contiguous prefix, reception prefix, pages in flight
+		sb.WriteString(" ack+=")
+		for id := w.acked + 2; id <= uint64(len(w.logs)); id++ {
+			if w.ackedIDs[id] {
+				fmt.Fprintf(&sb, "%d,", id)
+			}
+		}
+		fmt.Fprintf(&sb, " pages=%d/%d", w.pagesOK, w.pages)
+	}
 	return sb.String()
 }
 
@@ -316,6 +410,12 @@ func (w *world) controller(prefix []uint8, expect []uint64, x *execResult) {
 		if w.engErr != "" || w.viol != nil {
 			break
 		}
+		if w.crash != "" {
+			// the process is dead: nothing more to explore on this path (what a crash leaves
+			// behind - the persisted position - was judged by oracle (1) just above)
+			w.tracef("step %d: the code under test panicked (%s): end of the execution", step, w.crash)
+			break
+		}
 		acts, quiescent := w.choices()
 		ss := w.stateString(acts, quiescent)
 		h := hash64(ss)
@@ -368,6 +468,10 @@ func (w *world) controller(prefix []uint8, expect []uint64, x *execResult) {
 	x.final = fmt.Sprintf("acked=%d persisted=%s logs=%d epoch=%d managers=%d lastcmd=%s", w.acked, w.persistedString(), len(w.logs), w.epoch, len(w.mgrs), w.lastCmd)
 	x.viol = w.viol
 	x.engErr = w.engErr
+	if x.viol == nil && x.engErr == "" {
+		x.crash = w.crash
+	}
+	x.pages, x.pagesOK, x.splitPages, x.partialPages, x.swallowed = w.pages, w.pagesOK, w.splitPages, w.partialPages, w.swallowed
 	w.teardown()
 }
 
@@ -420,6 +524,16 @@ func (w *world) teardown() {
 		time.Sleep(sleepLevels[0])
 		synctest.Wait()
 	}
+	// Same orphans, batched configurations: the drained Driver.Start succeeded, so their
+	// Batcher has started its batching goroutine, which only Batcher.Stop ends (Stop is
+	// harmless on a Batcher that was never started or is already stopped).
+	w.mu.Lock()
+	bs := w.batchers
+	w.mu.Unlock()
+	for _, b := range bs {
+		_ = b.Stop(context.Background())
+	}
+	synctest.Wait()
 }
 
 // runOne executes one choice list from scratch in a fresh bubble.
